@@ -25,13 +25,14 @@ type zzOp struct {
 // zzMemDS is the datastore contract: every direct Put/Delete and every Batch.Commit is atomic and is
 // recorded as one entry of the commit log.
 type zzMemDS struct {
-	m        map[string][]byte
-	log      [][]zzOp
-	writes   int // direct writes and commits attempted
-	failFrom int // the failFrom-th .. (failFrom+failN-1)-th write attempts fail (1-based); 0 = never
-	failN    int
-	gates    bool
-	reads    int
+	m          map[string][]byte
+	log        [][]zzOp
+	writes     int // direct writes and commits attempted
+	failFrom   int // the failFrom-th .. (failFrom+failN-1)-th write attempts fail (1-based); 0 = never
+	failN      int
+	gates      bool
+	gatesAfter bool
+	reads      int
 }
 
 var zzErrWrite = errors.New("zz: datastore write failure")
@@ -79,6 +80,10 @@ func (d *zzMemDS) Get(_ context.Context, k datastore.Key) ([]byte, error) {
 	d.gate("ds.get:" + k.String())
 	d.reads++
 	v, ok := d.m[k.String()]
+	if d.gatesAfter {
+		// a second scheduling point between the read and the caller seeing its result
+		d.gate("ds.got:" + k.String())
+	}
 	if !ok {
 		return nil, datastore.ErrNotFound
 	}
@@ -142,7 +147,7 @@ func (b *zzBatch) Delete(_ context.Context, k datastore.Key) error {
 }
 
 func (b *zzBatch) Commit(context.Context) error {
-	b.d.gate("ds.commit")
+	b.d.gate("ds.commit:" + zzItoa(len(b.ops))) // the size tells the flush loop's commit from a deleter's (often empty) one
 	if len(b.ops) == 0 {
 		return nil
 	}
